@@ -3,8 +3,8 @@ CANON = True
 
 import ast
 
-from .. import compq, pyq
-from ..pysrc import dotted, norm, flat
+from .. import pm, compq, pyq
+from ..pysrc import dotted, norm, flat, stmt_of
 
 R = compq.RM
 
@@ -47,11 +47,14 @@ def check(ctx, src):
     while lp is not None and not isinstance(lp, ast.For):
         lp = lp._parent
     ctx.check(lp is not None and norm(lp.iter) == "form", "QQ-LEVEL", f"{R}|render_quoted_form|children loop", "the recursion must visit every child of the form", R, f.lineno, detail="for x in form")
-    sp = pyq.contains(f, lambda n: isinstance(n, ast.If) and norm(n.test) == "splice")
+    # the splice flag is the second element of the recursive call's result
+    rc_st = stmt_of(rec[0]) if rec else None
+    flag = rc_st.targets[0].elts[1].id if isinstance(rc_st, ast.Assign) and isinstance(rc_st.targets[0], ast.Tuple) and len(rc_st.targets[0].elts) == 2 and isinstance(rc_st.targets[0].elts[1], ast.Name) else None
+    sp = pyq.contains(f, lambda n: isinstance(n, ast.If) and isinstance(n.test, ast.Name) and n.test.id == flag)
     t = flat(sp) if sp is not None else ""
     ctx.check("f_contents = Expression([Symbol('unpack-iterable'), Expression([Symbol('or'), f_contents, List()])])" in t, "QQ-SPLICE", f"{R}|render_quoted_form|splice", "a splice must become (unpack-iterable (or X []))", R, f.lineno,
               witness="`[1 ~@None] raises TypeError instead of splicing nothing", detail="(unpack-iterable (or X []))")
-    ctx.check("`unpack-iterable` is not allowed here" in t, "QQ-SPLICE", f"{R}|render_quoted_form|splice of unpack", "splicing an unpack form must be a syntax error", R, f.lineno, detail="syntax error")
+    ctx.check(sp is not None and pm.find(sp, "if is_unpack('iterable', f_contents):\n    compiler._syntax_error(f_contents, __)") is not None, "QQ-SPLICE", f"{R}|render_quoted_form|splice of unpack", "splicing an unpack form must be a syntax error", R, f.lineno, detail="syntax error")
     ctx.assume("the result of evaluating a concrete template is not decided; an unrecognisable rewrite of render_quoted_form is reported against the named sub-rule")
     ctx.floor("QQ-LEVEL", 6)
 
